@@ -86,12 +86,16 @@ Fixpoint expected_bind (i : nat) (params pos : list string) (kw : list (string *
        head is written again in front (HRepaired = fixes/C19-lazy-keyword-arrow-function.patch: for
        positional AND keyword arguments, with the parameter list as written; HPinned: `()=>` for a
        positional argument only, nothing for a keyword argument);
-     - any other token gives its text; the texts are concatenated without separator. *)
+     - any other token gives its text;
+     - HRepaired (fixes/C19-lazy-argument-spacing.patch): tokens that were apart in the source (`~ ~1 ~`) are
+       joined by one blank, adjacent ones (`@a[tag=x]`) by nothing; AGap marks a place where the source had
+       blanks between two tokens (utils.is_connected is false).  HPinned: everything is glued together. *)
 Inductive atok :=
 | AStr (backtick : bool) (s : string)        (* string literal: decoded content *)
 | AParen (cleaned : string)
 | AFunc (params body : string)               (* "(i)" and "{ ... }" *)
-| AOther (s : string).
+| AOther (s : string)
+| AGap.                                      (* not a token: blanks between the neighbouring tokens *)
 
 (* repr(str) of CPython on the characters 9, 10, 13 and 32..126 (the harness excludes anything else):
    single quotes unless the text contains a single and no double quote; backslash, the chosen quote,
@@ -126,7 +130,11 @@ Definition tok_text (full : bool) (t : atok) : string :=
   | AParen c => c
   | AFunc _ body => body
   | AOther s => s
+  | AGap => " "%string
   end.
+Definition is_gap (t : atok) : bool := match t with AGap => true | _ => false end.
+Definition keep_gaps (m : hmode) (toks : list atok) : list atok :=
+  match m with HRepaired => toks | HPinned => filter (fun t => negb (is_gap t)) toks end.
 Definition arrow_head (m : hmode) (is_kw : bool) (toks : list atok) : string :=
   match toks with
   | AFunc ps _ :: _ =>
@@ -138,7 +146,7 @@ Definition arrow_head (m : hmode) (is_kw : bool) (toks : list atok) : string :=
   end.
 (* `full` is use_full_string: True at both call sites of handle_lazy *)
 Definition arg_text_gen (full : bool) (m : hmode) (is_kw : bool) (toks : list atok) : string :=
-  (arrow_head m is_kw toks ++ String.concat EmptyString (map (tok_text full) toks))%string.
+  (arrow_head m is_kw toks ++ String.concat EmptyString (map (tok_text full) (keep_gaps m toks)))%string.
 Definition arg_text := arg_text_gen true.
 
 (* the call as handle_lazy sees it: token lists; binding, then text *)
